@@ -7,6 +7,8 @@ package io
 
 //@ func ToByteReader
 //@   ghostinit result
+//@   ensures identity [C03,C13]: implements(r, "io.ByteReader") ==> result == r
+//@   ensures wrapper [C03,C13]: !implements(r, "io.ByteReader") ==> freshobj(result) && typeis(result, "*v2/internal/io.readerPlusByte")
 //@   ensures same_cell [C02,C03,C09]: cell(result) == cell(r) && lim(result) == lim(r)
 //@   ensures nonnil: result != nil
 
